@@ -143,6 +143,14 @@ Proof. exact imports_closed_thm. Qed.
 Theorem C07_rebuilds_schema : gen_rebuilds_schema = true.
 Proof. reflexivity. Qed.
 
+(** ... and from empty portType / binding / service tables: build_interface_document
+    empties port_type_dict, binding_dict and service_elt_dict before anything else
+    (read from the source), so [porttypes], [bindings] and [services], which are
+    computed from the snapshot alone, describe a second build on the same Wsdl11
+    instance (the next ?wsdl request after a build that failed half way) as well *)
+Theorem C07_resets_tables : gen_resets_tables = true.
+Proof. reflexivity. Qed.
+
 (** the hypothesis is decidable; the harness evaluates [wf_snapb] on the snapshot of
     every generated application *)
 Theorem C07_wf_decidable : forall a, wf_snapb a = true -> wf_snap a.
